@@ -17,7 +17,7 @@ does where it differs (constants MapOrder, LastChanceAny).
     theorems the code keeps - SoundName, ExactWins, ErrorOnlyIfNothing, OwnActionReachable, PropertyEventId, the
     names, the merge), and configurations that must break a theorem: the code's constants break NeverAnotherOverload
     and Deterministic (outside C05's statement: a generated proxy asks with the signature its stub declares),
-    the code as found until fix cfb3416 breaks OwnActionReachable (inside), an unsorted walk breaks NamesStable,
+    the code as found until the repair of MethodID (fix "MethodID answers the same method on every call") breaks OwnActionReachable (inside), an unsorted walk breaks NamesStable,
     ids of the generic range break FullKeepsActions / FullKeepsIdsUnique, and the identifiers derived from the names
     are not pairwise distinct (ProxyIdentsDistinct: setLevel next to the property level).
 (b) GenMetaLookup exports one row per meta-object (the answers the code's rendering allows and the intent's answer
@@ -36,7 +36,7 @@ C14_MARKS = ("metalookup/own/property-lookup/", "metalookup/own/e2e/property-", 
              "metalookup/own/e2e/event-not-delivered", "metalookup/own/e2e/subscriber-receives-other-events")
 
 DEVS = [  # (configuration, the theorem that must break, what the configuration says, inside C05's statement?)
-    ("Dev_MetaLookup_pinned_methods.cfg", "OwnActionReachable", "MethodID answers the first candidate of a map walk (the code as found until fix cfb3416): "
+    ("Dev_MetaLookup_pinned_methods.cfg", "OwnActionReachable", "MethodID answers the first candidate of a map walk (the code as found until the repair 'fix: MethodID answers the same method on every call'): "
      "a method named like a generic action with the same parameters (clearStats()) is not reliably found", True),
     ("Dev_MetaLookup_code_overload.cfg", "NeverAnotherOverload", "the code: the last chance 'an entry that carries the name' also applies to an overloaded name - "
      "a query whose signature no overload declares is answered with some overload", False),
